@@ -7,6 +7,13 @@ def T(qcases, tcases, qbudget=240, tbudget=1500, workers=16):
             "thorough": dict(cases=tcases, budget_s=tbudget, workers=workers)}
 
 PROPS = {
+    "C02": dict(sources=["props/C02.cpp"], jls=True, tiers=T(150, 2500),
+                assumptions=["tolerances (stats_oracle.h): mean (L+2)*(2u*A + n*2^-53*A) with u = 2^-24 (f32 summaries) or 2^-53 (f64 summaries), A = max|x|, L = levels, n = max(sdf, sumdf); std additionally 4*sqrt(tau*A)",
+                             "64-bit types: an error return is accepted (the reader documents that raw-sample statistics of 64-bit types are unsupported); 24-bit types cannot be summarised and are excluded",
+                             "windows containing gap fill are excluded (C09)"]),
+    "C15": dict(sources=["props/C15.cpp"], jls=True, tiers=T(600, 8000),
+                assumptions=["'enable is delayed by one block' is not predicted: which blocks are omitted is read from the level-1 index of the omit run",
+                             "blocks omitted on request are only required to read back with rc 0 and the right number of samples; automatically omitted constant blocks of <= 8-bit types must be bit-exact"]),
     "C19": dict(sources=["props/C19.cpp"], jls=True, level="fault_enumeration", tiers=T(400, 6000, qbudget=300, tbudget=1800),
                 worker_variants=["fast", "fast", "fast", "asan"],
                 assumptions=["crash images as in C03 (exact write-log replay); only images that jls_rd_open accepts are judged",
@@ -64,6 +71,14 @@ PROPS = {
 HOOK_COMMITS = ["6203c3e4032b5e35344eee56bc8020982a6abdeb"]
 
 MANIFEST_TEXT = {
+    "C02": dict(
+        technique="model-based property testing: generated definitions/streams reaching 1-5 summary levels x generated (start, increment, count) requests against exact long-double window statistics with stated tolerances",
+        level_text="Streams up to ~350k samples reach up to 5 summary levels; requests use increments around sdf*sumdf^k (x1, x0.999, x1.001, x2.5), counts 1/2/24/25/26/100 and starts aligned or unaligned to entries, blocks and summary chunks, incl. windows ending at the last sample. count=1: min/max exact, mean within tolerance, std within [sqrt((d-1)/d)*sigma, sigma]; count>1: every entry within the extremes of its window widened by one increment, average of means equals the exact range mean; errors inside the signal are violations for <= 32-bit types.",
+        level_note="Trusted: long-double two-pass reference and the frozen tolerances (calibrated on the fixed tree over several seeds)."),
+    "C15": dict(
+        technique="two-run relational (metamorphic) property testing with the independent decoder: same stream with and without omission; model-based reads for <= 8-bit constant-block patterns",
+        level_text="For every generated stream the plain and the omit-toggled file are decoded independently: SUMMARY payloads at every level must be byte-identical, INDEX headers identical, level-1 entries 0 only for missing DATA chunks, stored DATA chunks identical, first block stored, reported length equal; reads anchored at stored/omitted block edges at every bit phase must be bit-exact for stored blocks and for automatically omitted constant blocks (u1/u4/u8/i4/i8), and succeed with the right sample count for blocks omitted on request; summary-aligned statistics must be bitwise equal between the runs.",
+        level_note="Trusted: decoder.h, sample model. Open finding KF-C15-1 (length rounded down when the last, partial block is omitted on request; pinned by test/fsr_omit_test.c) is matched by predicate."),
     "C19": dict(
         technique="fault injection (write-log replay) + idempotence/read-only invariants over the backend log: open, reopen, reopen; byte and dump equality",
         level_text="Closed files are read by generated read scripts with the backend log on: no write/truncate/RDWR-open may occur and bytes stay identical (also on a real file through the genuine backend, checked by size/mtime/bytes). Crash images that open are checked after the first open with the independent decoder (well-formed closed file) and then opened twice more: no mutating backend operation, identical bytes, identical dump.",
